@@ -41,6 +41,9 @@ def cases(tier, seed):
                  long_stall=r.choice([0, 0, 0.01]), seed="C14/%d/%d" % (seed, k))
         c["name"] = "%04d-%s-w%d-%s%s%s-%s" % (k, c["port"], dw, "long" if long_run else "short", "-rd" if c["random_data"] else "",
                                                "-ra" if c["random_addr"] else "", c["corrupt"])
+        if k % 5 == 2:
+            # the run_cascade_in inputs (used to chain BIST units) pause generator and checker at random moments
+            c["cascade"] = True
         if k % 3 == 1:
             # a second run on the same generator / checker instances with other parameters (LFSR / counter / address state
             # must restart; nothing of the first run may leak into the second)
@@ -48,6 +51,8 @@ def cases(tier, seed):
             c["second"] = dict(base=r.randrange(0, 64) * rw2 * wb, range_bytes=rw2 * wb, length=r.randint(4, rw2) * wb,
                                random_data=bool(r.getrandbits(1)), random_addr=False, corrupt=r.choice(["none", "one", "few"]))
             c["name"] += "-2runs"
+        if c.get("cascade"):
+            c["name"] += "-pause"
         c["cost"] = length_words
         out.append(c)
     # the same two cores on two ports of the real crossbar + controller + reference DRAM (rows, banks, refresh in the way)
@@ -230,6 +235,18 @@ def run_case(c):
         for _ in range(20):
             yield
 
+    def pauser():
+        yield "passive"
+        rr = random.Random(c["seed"] + "/pause")
+        while True:
+            for core in (dut.gen, dut.chk):
+                yield core.run_cascade_in.eq(1 if rr.random() < 0.6 else 0)
+            for _ in range(rr.choice([1, 1, 2, 5, 12])):
+                yield
+
+    if c.get("cascade"):
+        procs = procs + [pauser()]
+        bound *= 3
     cycles, reason = run_sim(dut, procs + [main()], lambda: state["done"], len(rounds) * (2 * bound + 2000), wall_limit=900)
     if reason == "wall":
         return dict(verdict="inconclusive", why="wall-clock watchdog", violations=[], stats={}, nontrivial=False, signature="")
